@@ -2,9 +2,9 @@ package main
 
 import (
 	"bytes"
-	"strings"
 	"errors"
 	"fmt"
+	"strings"
 	"time"
 
 	"github.com/syndtr/goleveldb/leveldb"
